@@ -1216,8 +1216,11 @@ func (s *Server) cleanupExpiredLeases() {
 			pool.Release(lease.IP)
 		}
 
-		// Remove from fast path cache (MAC, VLAN and circuit-ID entries)
 		if hwAddr, _ := net.ParseMAC(mac); hwAddr != nil {
+			// The session is over: Accounting-Stop, QoS policy, NAT block
+			s.releaseSessionResources(hwAddr, lease, radius.TerminateCauseSessionTimeout)
+
+			// Remove from fast path cache (MAC, VLAN and circuit-ID entries)
 			s.removeFromFastPath(hwAddr, lease)
 		}
 	}
